@@ -322,7 +322,7 @@ def main():
             import mutants
             if mutants.capture_argv(args.repo):
                 try:
-                    ms = mutants.mutants_for(prop, with_seeded=True)
+                    ms = mutants.mutants_for(prop, with_seeded=True, with_benign=True)
                 except ModuleNotFoundError:
                     ms = []
                 base = set(r.key for r in uviol)
